@@ -4,6 +4,7 @@ import (
 	"bytes"
 	"crypto/sha256"
 	"fmt"
+	"os"
 	"strings"
 	"time"
 
@@ -86,8 +87,29 @@ func runC06(t *sim.T, tier string) *sim.Violation {
 			cfg.Services = 3 + t.Choose(4)
 		}
 		m := gen.GenStatic(t, cfg)
-		b := m.Feed.Zip(gen.DrawZipOpts(t, len(m.Feed.Tables)))
+		// half of the static inputs carry reference faults (parent cycles, duplicate and blank ids, dangling
+		// references): the parser's repairs of such input must be deterministic too
+		if t.Chance(1, 2) {
+			for n := t.Range(1, 3); n > 0; n-- {
+				if d := gen.MutateStatic(t, m, gen.FocusRefs); d != "" {
+					t.Logf("static%d fault: %s", i, d)
+					t.Fault("record-fault-in-input")
+				}
+			}
+		}
+		zo := gen.DrawZipOpts(t, len(m.Feed.Tables))
+		b := m.Feed.Zip(zo)
 		inputs = append(inputs, c06Input{1, b, fmt.Sprintf("static%d(%s)", i, m.Summary())})
+		// a sibling that differs only in the presentation of a few values (padding, case): parsing one must
+		// not influence the parse of the other (caches keyed by normalised values)
+		if t.Chance(1, 2) {
+			sib := &gen.StaticModel{Feed: m.Feed.Clone(), Cfg: m.Cfg}
+			if d := gen.PadCells(t, sib); d != "" {
+				t.Logf("static%d sibling: %s", i, d)
+				t.Probe("sibling-input")
+				inputs = append(inputs, c06Input{1, sib.Feed.Zip(zo), fmt.Sprintf("static%d-sibling", i)})
+			}
+		}
 		if t.Chance(1, 4) {
 			inputs = append(inputs, c06Input{1, append([]byte(nil), b[:t.Choose(len(b))]...), "static-truncated"})
 		}
@@ -115,7 +137,6 @@ func runC06(t *sim.T, tier string) *sim.Violation {
 	nOps := t.Range(2, 10)
 	useCount := map[int]int{}
 	var seq strings.Builder
-	digest := sha256.New()
 	big := false
 	failedInHistory := false
 
@@ -187,12 +208,30 @@ func runC06(t *sim.T, tier string) *sim.Violation {
 		return "content", "C06:content:" + sim.DiffPath(an, bn)
 	}
 
-	for k := 0; k < nOps; k++ {
-		ii := t.Choose(len(inputs))
+	type c06Op struct {
+		ii, obj int
+		inherit bool
+	}
+	ops := make([]c06Op, nOps)
+	for k := range ops {
+		ops[k] = c06Op{t.Choose(len(inputs)), t.Choose(nPool), t.Chance(1, 2)}
+		fmt.Fprintf(&seq, "%d:%d:%v;", ops[k].ii, ops[k].obj, ops[k].inherit)
+	}
+	// VERIF_C06_ORDER=reverse (set by the driver for its fresh child processes) executes the same
+	// operations in the opposite order and only computes the per-operation digests: a parse must be
+	// unaffected by whatever was parsed before it, so the digests must not depend on the order.
+	reverse := os.Getenv("VERIF_C06_ORDER") == "reverse"
+	opDigest := make([]string, nOps)
+	order := make([]int, nOps)
+	for k := range order {
+		order[k] = k
+		if reverse {
+			order[k] = nOps - 1 - k
+		}
+	}
+	for _, k := range order {
+		ii, obj, inherit := ops[k].ii, ops[k].obj, ops[k].inherit
 		in := inputs[ii]
-		obj := t.Choose(nPool)
-		inherit := t.Chance(1, 2)
-		fmt.Fprintf(&seq, "%d:%d:%v;", ii, obj, inherit)
 		var hist, histN string
 		var ok bool
 		if in.kind == 0 {
@@ -207,7 +246,10 @@ func runC06(t *sim.T, tier string) *sim.Violation {
 			t.Probe("panic-skip-op")
 			continue
 		}
-		digest.Write([]byte(hist))
+		opDigest[k] = fmt.Sprintf("%x", sha256.Sum256([]byte(hist)))[:16]
+		if reverse {
+			continue
+		}
 		// (4) input unchanged
 		if !bytes.Equal(in.b, snaps[ii]) {
 			return &sim.Violation{Class: "input-modified", Signature: "C06:input-modified", Detail: fmt.Sprintf("op %d modified its input buffer %s", k, in.desc)}
@@ -260,7 +302,7 @@ func runC06(t *sim.T, tier string) *sim.Violation {
 	if failedInHistory {
 		t.Probe("failed-parse-in-history")
 	}
-	t.Digest = fmt.Sprintf("%x", digest.Sum(nil)[:12])
+	t.Digest = strings.Join(opDigest, ",")
 	var inSig strings.Builder
 	for _, in := range inputs {
 		fmt.Fprintf(&inSig, "%x;", sim.HashBytes(in.b))
